@@ -34,6 +34,10 @@ class Ctx:
         self.assumptions = list(ASSUME_COMMON)
         self.level = "model_checking"
         self.distinct = set()
+        self.other_props = {}
+        # projected fields that are visible through the public API for this property
+        self.obs_state = {"C01": {"sess", "peer", "ms", "rev"}, "C18": {"ms"}, "C15": {"ttag", "otag"},
+                          "C07": {"ms", "sess", "peer"}, "C03": {"ms"}, "C16": {"ver"}}.get(pid, set())
 
     def quick(self):
         return self.tier != "thorough"
@@ -97,11 +101,21 @@ class Ctx:
             scheds = rnd.sample(scheds, maxsched)
             self.exhaustive = False
         recs = []
+        # with a drained prelude (data-phase scenarios) the attacker starts after the set-up
+        skip = 0
+        if (consts.get("Setup") == "ake" or consts.get("PreludeDrain")) and len(scheds) > 1:
+            first = scheds[0]
+            skip = len(first)
+            for sc2 in scheds[1:]:
+                k = 0
+                while k < min(skip, len(sc2)) and sc2[k] == first[k]:
+                    k += 1
+                skip = k
         for i, steps in enumerate(scheds):
             if not replace:
                 out = []
-                for st in steps:
-                    if st["a"] in ("Deliver", "DeliverAt", "DupAt"):
+                for k, st in enumerate(steps):
+                    if k >= skip and st["a"] in ("Deliver", "DeliverAt", "DupAt"):
                         t = dict(a="TamperAll", p=st["p"], t=per_msg, z=2, i=i)
                         if allpos:
                             t["q"] = True
@@ -109,7 +123,7 @@ class Ctx:
                     out.append(st)
                 recs.append(vlib.sched_record(out, consts, "%s-t%d" % (name, i), fam))
             else:
-                dels = [k for k, st in enumerate(steps) if st["a"] == "Deliver"]
+                dels = [k for k, st in enumerate(steps) if st["a"] == "Deliver" and k >= skip]
                 for k in dels:
                     for v in range(per_msg):
                         out = list(steps)
@@ -187,11 +201,12 @@ class Ctx:
         for r in reports:
             if r["kind"] == "PROP":
                 if r["prop"] != self.pid:
+                    self.other_props[(r["prop"], r["reason"])] = self.other_props.get((r["prop"], r["reason"]), 0) + 1
                     continue
                 self.add_finding(dict(kind="PROP", reason=r["reason"], trace=r["trace"], line=r["line"], ev=r["ev"], p=r["p"],
                                       changed=sorted(r.get("changed") or []), atk=r.get("atk", "")))
             else:
-                obs = sorted(set(r["fields"]) & OBSERVABLES)
+                obs = sorted(set(r["fields"]) & (OBSERVABLES | self.obs_state))
                 if obs:
                     self.add_finding(dict(kind="MISMATCH", reason="implementation deviates from the specification in " + ",".join(obs),
                                           fields=r["fields"], expected=r.get("expected"), observed=r.get("observed"),
@@ -240,6 +255,8 @@ class Ctx:
         nviol = 0
         if os.environ.get("VERIF_VERBOSE"):
             import collections
+            for k, v in sorted(self.other_props.items()):
+                print("  OTHER-PROPERTY x%d %s" % (v, k))
             cnt = collections.Counter()
             for f in self.findings:
                 m = (f.get("run") or [{}])[f["idx"]].get("m", {}) if f.get("run") and f.get("idx") is not None else {}
@@ -463,6 +480,8 @@ def c02(ctx):
                                allpos=not q, maxsched=80 if q else 600)
     ctx.export_tamper_validate("c02-data-v2", dict(PolA=1, PolB=1, Setup="ake", MaxSend=2, MaxFlight=2), "fifo-data", per_msg=14 if q else 0,
                                allpos=not q, maxsched=40 if q else 300)
+    ctx.export_tamper_validate("c02-ws", dict(PolA=3 | 8, PolB=3 | 16, Prelude=[dict(a="Send", p="A")], PreludeDrain=True, MaxSend=1, MaxFlight=2),
+                               "none", per_msg=6 if q else 20, maxsched=30 if q else 200)
     ctx.export_tamper_validate("c02-rep", dict(DATA33, MaxSend=2, MaxFlight=2), "none", per_msg=4 if q else 16, maxsched=20 if q else 150, replace=True)
     ctx.attack_catalogue("data")
 
